@@ -128,7 +128,11 @@ theorem step_Mono (cfg : Cfg) (w : World) (op : Op) : Mono w (step cfg w op) := 
   | sleep f d => exact Mono.of_fibers rfl
   | timeout f d => exact Mono.of_fibers rfl
   | deadline f b d => exact Mono.of_fibers rfl
-  | bodyStart b => exact Mono.of_fibers rfl
+  | bodyStart b =>
+    simp only [step]
+    split
+    · exact Mono.refl _
+    · exact Mono.of_fibers rfl
   | bodyDone b => exact Mono.of_fibers rfl
   | fiberDead f => exact setFlag_Mono w f _ rfl
   | asyncStart f s r => exact setFlag_Mono _ f _ rfl
